@@ -1,6 +1,7 @@
 (* C13 - Multi-threaded CLI pipelines are correct under every thread schedule. *)
 From Coq Require Import ZArith List Lia Bool Permutation.
-From LZ4V Require Import Gen.Consts Gen.TPoolSites Model.WriteReg Proofs.WriteRegProofs.
+From LZ4V Require Import Gen.Consts Gen.TPoolSites Model.WriteReg Model.TPool Model.Pipeline
+  Proofs.WriteRegProofs Proofs.TPoolProofs Proofs.DecodeRingProofs Proofs.C13Inst.
 Import ListNotations.
 Local Open Scope Z_scope.
 
@@ -36,3 +37,104 @@ Example C13_write_order_nonvacuous :
   (let '(w, out, ok) := arrive_all WR_init (map (arrival blocks) perm) [] true in
    (wr_expected w, wr_capacity w, stored_ranks (wr_buffers w), out, ok)) = (40, 64, [], blocks, true).
 Proof. split; [apply Permutation_sym, Permutation_rev|]. split; vm_compute; reflexivity. Qed.
+
+(* ------------------------------------------------------------------------------------------------
+   Buffer rings of the decoding pipelines (Model/Pipeline.v on top of Model/TPool.v).
+   [s_viol] is set by the model exactly where the C code touches a ring buffer: when the main thread
+   refills inBuffs[k mod NB], when LZ4IO_decompressBlockLegacy starts writing outBuffs[k mod NB], when
+   LZ4IO_decompressLZ4FChunk hands BufferPool buffer j mod PB to a write job -- it is set iff a job that
+   was submitted and has not returned still uses that slot.
+
+   Parametric form (any queue depths TQ, WQ >= 1, any ring sizes, any number of blocks, any schedule and
+   any wake-up choice):  NB >= TQ + 2,  NB >= WQ + 2 (legacy outBuffs),  PB >= WQ + 2 (BufferPool)
+   imply that no reachable state has the flag set. *)
+Theorem C13_no_reuse_parametric :
+  forall c : cfg,
+    (c_kind c = DecLegacy \/ c_kind c = DecLZ4F) -> c_N c = 1%nat ->
+    (1 <= c_tdepth c)%nat -> (1 <= c_wdepth c)%nat ->
+    (c_tdepth c + 2 <= c_NB c)%nat ->
+    (c_kind c = DecLegacy -> (c_wdepth c + 2 <= c_NB c)%nat) ->
+    (c_kind c = DecLZ4F -> (c_wdepth c + 2 <= c_PB c)%nat) ->
+    forall (sched : list pick) (st : state),
+      run c (init_state c) sched = Some st -> s_viol st = false.
+Proof. exact ring_safe. Qed.
+Print Assumptions C13_no_reuse_parametric.
+
+(* the counting fact behind it: the submitted-and-unfinished decode jobs are the last <= TQ+1 submitted ones,
+   the unfinished write jobs the last <= WQ+1 *)
+Theorem C13_ring_window :
+  forall c : cfg,
+    (c_kind c = DecLegacy \/ c_kind c = DecLZ4F) -> c_N c = 1%nat ->
+    (1 <= c_tdepth c)%nat -> (1 <= c_wdepth c)%nat ->
+    (c_tdepth c + 2 <= c_NB c)%nat ->
+    (c_kind c = DecLegacy -> (c_wdepth c + 2 <= c_NB c)%nat) ->
+    (c_kind c = DecLZ4F -> (c_wdepth c + 2 <= c_PB c)%nat) ->
+    forall (sched : list pick) (st : state),
+      run c (init_state c) sched = Some st ->
+      exists ms lo wsub lw : nat,
+        (ms <= lo + c_tdepth c + 1)%nat /\ (wsub <= lw + c_wdepth c + 1)%nat /\
+        forall x, In x (live_jobs st) ->
+          (exists k, x = JD c k /\ (lo <= k < ms)%nat) \/ (exists j, x = JW c j /\ (lw <= j < wsub)%nat).
+Proof. exact ring_window. Qed.
+Print Assumptions C13_ring_window.
+
+(* Instances for the constants generated from programs/lz4io.c on this run (TPool_create(1,1) twice,
+   NB_BUFFSETS, PBUFFERS_NB): shrinking a ring or deepening a queue in the C source makes these fail. *)
+Theorem C13_no_reuse_legacy :
+  forall (nblocks : nat) (sched : list pick) (st : state),
+    run (dl_cfg nblocks) (init_state (dl_cfg nblocks)) sched = Some st -> s_viol st = false.
+Proof. exact no_reuse_legacy. Qed.
+Print Assumptions C13_no_reuse_legacy.
+
+Theorem C13_no_reuse_lz4f :
+  forall (outs : list nat) (sched : list pick) (st : state),
+    run (df_cfg outs) (init_state (df_cfg outs)) sched = Some st -> s_viol st = false.
+Proof. exact no_reuse_lz4f. Qed.
+Print Assumptions C13_no_reuse_lz4f.
+
+Theorem C13_generated_layer_consistent :
+  TP_DL_t_workers = Some 1 /\ TP_DL_w_workers = Some 1 /\ TP_DF_t_workers = Some 1 /\ TP_DF_w_workers = Some 1 /\
+  TP_CL_w_workers = Some 1 /\ TP_CF_w_workers = Some 1 /\ TP_CL_t_workers = None /\ TP_CF_t_workers = None /\
+  RING_DL_in = NB_BUFFSETS /\ RING_DL_out = NB_BUFFSETS /\ RING_DF_in = NB_BUFFSETS /\ RING_DF_out = PBUFFERS_NB.
+Proof. exact gen_consistent. Qed.
+Print Assumptions C13_generated_layer_consistent.
+
+(* the side conditions are tight: one slot less / one more queued write job and some schedule reuses a live buffer *)
+Theorem C13_reuse_if_NB_is_2_refuted :
+  let c := mkCfg DecLegacy 1 1 1 2 3 0 false 3 [] in
+  exists sched st, run c (init_state c) sched = Some st /\ s_viol st = true.
+Proof. exact reuse_if_NB_is_2. Qed.
+Print Assumptions C13_reuse_if_NB_is_2_refuted.
+
+Theorem C13_reuse_if_PB_is_2_refuted :
+  let c := mkCfg DecLZ4F 1 1 1 4 2 0 false 0 [3%nat] in
+  exists sched st, run c (init_state c) sched = Some st /\ s_viol st = true.
+Proof. exact reuse_if_PB_is_2. Qed.
+Print Assumptions C13_reuse_if_PB_is_2_refuted.
+
+Theorem C13_reuse_if_writer_queue_is_2_refuted :
+  let c := mkCfg DecLegacy 1 1 2 3 3 0 false 4 [] in
+  exists sched st, run c (init_state c) sched = Some st /\ s_viol st = true.
+Proof. exact reuse_if_writer_queue_is_2. Qed.
+Print Assumptions C13_reuse_if_writer_queue_is_2_refuted.
+
+(* queue depth 1 for the compression tPool: a reachable state in which no thread can run although the work is not
+   finished and both queues are empty (main and the reader job wait on the same queuePushCond; the two signals
+   that were sent both woke main).  This is why the deadlock-freedom lemmas need depth >= 2. *)
+Theorem C13_depth1_deadlock :
+  let c := mkCfg CompLegacy 2 1 4 4 3 1 false 0 [] in
+  exists sched st, run c (init_state c) sched = Some st /\ final st = false /\
+                   q_len (s_pt st) = 0%nat /\ q_len (s_pw st) = 0%nat /\
+                   (forall pk, pstep c st pk = None).
+Proof. exact depth1_deadlock. Qed.
+Print Assumptions C13_depth1_deadlock.
+
+(* hypotheses of the ring theorems met by a concrete non-trivial run: legacy decoding of 6 blocks with the generated
+   constants, main running ahead as far as the queues allow: 3 decode jobs unfinished (= TQ + 2 = NB - 1 slots in use) *)
+Example C13_no_reuse_nonvacuous :
+  let c := dl_cfg 6 in
+  match run c (init_state c) [(0,0);(1,0);(0,0);(0,0)]%nat with
+  | Some st => (length (live_jobs st), s_viol st, s_mst st) = (2%nat, false, MWaitPush PT)
+  | None => False
+  end.
+Proof. vm_compute. reflexivity. Qed.
